@@ -44,8 +44,10 @@ Retract(b, k) == [b EXCEPT !.pc[b.act] = @ - k]
 
 \* ORG a (asmallg.c CodeORG_Core).  The pinned code compares and assigns through the EXECUTION address:
 \* if EProgCounter() # a then PCs := a - Phases.  With no PHASE in force this is "load address := a".
-\* (Deviation OrgWhilePhased: the manual calls the argument the load address; with a phase offset in force
-\*  the two readings differ.  The specification transcribes the code and the checks give no verdict on it.)
+\* (OrgWhilePhased: the manual's CAUTION paragraph calls the argument the load address; the sources, the fork's
+\*  history and every golden program use the execution-address reading, and the property text does not decide.
+\*  The specification and the checks take the implemented reading as the reference: what matters for C10 is
+\*  that ORG is ONE consistent function of the bookkeeping state.)
 Org(b, a) == IF Exec(b) = a THEN b ELSE [b EXCEPT !.pc[b.act] = a - b.ph[b.act]]
 OrgWhilePhased(b) == b.ph[b.act] # 0
 
